@@ -105,6 +105,8 @@ class Caller:
         self.release_after: list = []
         self.delivery_site = None
         self.in_shield_at_delivery = None
+        self.parked_kind_at_cancel = None    # the network op this caller had parked at the gate when the cancellation was requested / delivered
+        self.parked_kind_at_delivery = None
 
 
 class Parked:
@@ -170,9 +172,14 @@ class AioRun:
         self.seq += 1
         p = Parked(kind, pipe, info, fut, self.world.current_actor, self.seq)
         self.parked.append(p)
+        if not hasattr(self, "in_gate"):
+            self.in_gate = {}
+        actor = self.world.current_actor
+        self.in_gate[actor] = kind  # until the caller has actually resumed from this operation (the scheduler may have completed it already)
         try:
             return await fut
         finally:
+            self.in_gate.pop(actor, None)
             if p in self.parked:
                 self.parked.remove(p)
 
@@ -234,6 +241,7 @@ class AioRun:
                 caller.cancel_fired_at = caller.susp
                 caller.cancel_site = suspension_site(caller.program_coro)
                 caller.in_shield_at_cancel = self.shield_depth.get(caller.id, 0) > 0
+                caller.parked_kind_at_cancel = getattr(self, "in_gate", {}).get(caller.id)
                 if c["style"] == "task":
                     caller.task.cancel()
                 else:
@@ -243,6 +251,7 @@ class AioRun:
             if isinstance(e, asyncio.CancelledError) and caller.delivery_site is None and caller.cancel_fired_at is not None:
                 caller.delivery_site = suspension_site(caller.program_coro)
                 caller.in_shield_at_delivery = self.shield_depth.get(caller.id, 0) > 0
+                caller.parked_kind_at_delivery = getattr(self, "in_gate", {}).get(caller.id)
 
         caller.program_coro = self._program(caller)
         try:
@@ -520,6 +529,7 @@ class AioRun:
         caller.cancel_fired_at = caller.susp
         caller.cancel_site = suspension_site(caller.program_coro)
         caller.in_shield_at_cancel = self.shield_depth.get(caller.id, 0) > 0
+        caller.parked_kind_at_cancel = getattr(self, "in_gate", {}).get(caller.id)
         caller.cancelled_on_assign = True
         if caller.cancel["style"] == "task":
             caller.task.cancel()
